@@ -522,9 +522,9 @@ int server_main( int argc, char ** argv, PlanFn fn, long cpu_ms_default ) {
             }
         }
         e.k( "cpu_us", ( long long )cpu_us );
-        if( err.size() > 16384 ) {
-            // keep head (sanitizer summary line is at the top) and tail
-            err = err.substr( 0, 12288 ) + "\n...\n" + err.substr( err.size() - 3072 );
+        if( err.size() > 73728 ) {
+            // keep head (sanitizer summary line and the innermost ~200 frames are at the top) and tail
+            err = err.substr( 0, 65536 ) + "\n...\n" + err.substr( err.size() - 4096 );
         }
         e.k( "stderr", err );
         put( obs );
